@@ -24,6 +24,8 @@ def one(pid, k):
         clean = sh("%s /venv/bin/python %s/demo.py" % (env, src), cwd=wt)
         ap = sh("git apply %s/patch.diff" % src, cwd=wt)
         if ap.returncode != 0:
+            ap = sh("git apply -3 %s/patch.diff && git reset -q" % src, cwd=wt)
+        if ap.returncode != 0:
             return "patch does not apply: " + ap.stderr
         touched = sh("git diff --name-only", cwd=wt).stdout.split()
         base = sh("/venv/bin/python /verif/tools/run_baseline.py %s" % wt)
